@@ -200,6 +200,10 @@ class Sym:
             n = q.numerator
             r = self.sqrt()
             return r ** n
+        if abs(float(q) - 1.0 / 3.0) < 1e-15:
+            # cube root: an *atom* (op "cbrt") with the side relation atom^3 = argument, emitted as a fresh variable
+            v = math.copysign(abs(self.val) ** (1.0 / 3.0), self.val)
+            return Sym("cbrt", (self,), v)
         raise TypeError("unsupported exponent %r" % (e,))
 
     def sqrt(self):
@@ -328,6 +332,9 @@ def evalf(s, env, cache=None):
             r = go(s.args[0]) ** s.args[1]
         elif op == "sqrt":
             r = math.sqrt(go(s.args[0]))
+        elif op == "cbrt":
+            a = go(s.args[0])
+            r = math.copysign(abs(a) ** (1.0 / 3.0), a)
         elif op == "sin":
             r = math.sin(go(s.args[0]))
         elif op == "cos":
